@@ -771,6 +771,18 @@ class Simulation:
             self.results['measurements'] = {k: [v] for k, v in results.items()}
             return
 
+        for k, v in results.items():
+            if (
+                isinstance(v, TruncationError)
+                and k not in previous_results
+                and k + '_eps' in previous_results
+                and k + '_ov' in previous_results
+            ):
+                # loaded from a checkpoint, for which `prepare_results_for_save` has split the list
+                # of previous TruncationError values of this measurement into two arrays
+                eps, ov = previous_results.pop(k + '_eps'), previous_results.pop(k + '_ov')
+                previous_results[k] = [TruncationError(e, o) for e, o in zip(eps, ov)]
+
         previous_keys = set(previous_results.keys())
         new_keys = set(results.keys())
         new_keys_not_previous = new_keys - previous_keys
